@@ -149,6 +149,50 @@ def roundtrip_part(ctx: vlib.Ctx):
         fam.dispose()
 
 
+def scenario_part(ctx: vlib.Ctx):
+    """structured families the tree generator does not reach (generic specialisations with permuted / nested /
+    same-named type arguments from different modules, inheritance with overriding)"""
+    from harness import gen, scenarios
+    from mashumaro.codecs.basic import BasicDecoder, BasicEncoder
+    for _ in range(ctx.budget(60, 600)):
+        sc = ctx.rng.choice(scenarios.SCENARIOS)(ctx.rng)
+        ctx.hist("scenarios", sc["name"])
+        try:
+            ns = scenarios.build(sc)
+            ty = eval(sc["type"], dict(ns))
+            entries = []
+            # order of first use is part of the scenario: decoder first or encoder first
+            if ctx.rng.random() < 0.5:
+                dec = BasicDecoder(ty); enc = BasicEncoder(ty)
+            else:
+                enc = BasicEncoder(ty); dec = BasicDecoder(ty)
+            entries.append(("scenario_codec_roundtrip", lambda v: dec.decode(enc.encode(v))))
+            if sc["mixin"]:
+                entries.append(("scenario_mixin_roundtrip", lambda v: type(v).from_dict(v.to_dict())))
+        except Exception as e:
+            ctx.fail(f"scenario {sc['name']} [{sc['shape']}] cannot be built: {type(e).__name__}: {str(e)[:200]}",
+                     {"entry": "scenario_codec_roundtrip", "scenario": sc, "input_src": sc["values"][0], "expected": "ok"},
+                     {"kind": "scenario-build"})
+            scenarios.dispose(sc)
+            continue
+        for vsrc in sc["values"]:
+            v = eval(vsrc, dict(ns))
+            for entry, f in entries:
+                ctx.count((sc["name"], sc["shape"], entry))
+                try:
+                    back = f(v)
+                    ok = gen.same(back, v)
+                    obs = "ok:" + repr(back)
+                except Exception as e:
+                    ok = False
+                    obs = f"exc:{type(e).__name__}: {str(e)[:200]}"
+                if not ok:
+                    ctx.fail(f"scenario {sc['name']} [{sc['shape']}] {entry}: {vsrc[:200]} gives {obs[:300]}",
+                             {"entry": entry, "scenario": sc, "input_src": vsrc, "observed": obs, "expected": "ok:" + repr(v)},
+                             {"kind": "scenario-roundtrip"})
+        scenarios.dispose(sc)
+
+
 def run(ctx: vlib.Ctx):
     ctx.coverage["rule"] = ("timezone leaf: every whole-minute offset in (-24h,24h) (exhaustive, distinct = offsets); "
                             "general round trip: schemas from the shared grammar generator (depth<=4, nested/recursive/mixin dataclasses, "
@@ -156,6 +200,7 @@ def run(ctx: vlib.Ctx):
                             "distinct = (type tree, value) pairs")
     tz_part(ctx)
     roundtrip_part(ctx)
+    scenario_part(ctx)
 
 
 def replay(rep: dict) -> int:
@@ -170,6 +215,9 @@ def replay(rep: dict) -> int:
             return 1
         print("not reproduced")
         return 0
+    if str(rep.get("entry", "")).startswith("scenario_"):
+        from harness import scenarios
+        return scenarios.replay(rep)
     if rep.get("entry") == "codec_build":
         from harness import gen
         from mashumaro.codecs.basic import BasicDecoder, BasicEncoder
